@@ -42,6 +42,8 @@ PAIRS = [("W_g", "Wla_g_q"), ("W_c", "Wla_c_q"), ("W_N", "Wla_N_q")]
 
 def run(ctx):
     rep = ctx.rep
+    rep.rule("C23.R10", "frame indifference of the applied loads: a load datum given in the I-basis (Force, Moment) or the body basis (B_Force, B_Moment) is contracted with a Jacobian of the same basis, changing basis with A_IB in the right direction (A_IB @ B-vector, I-vector @ A_IB)", 4)
+    load_bases(ctx)
     rep.rule("C23.R1", "force families agree between residual and Jacobian", 6)
     rep.rule("C23.R2", "residual rows and Jacobian block rows", 10)
     rep.rule("C23.R3", "single evaluation point", 20)
@@ -177,6 +179,80 @@ def _resolve_ranges(fn, expr, depth=0):
                 out += r
         return out or None
     return None
+
+
+def load_bases(ctx, rule="C23.R10"):
+    """K15-style basis typing of the generalized force of the four load classes.  The datum's basis is the class's contract (prefix `B_`:
+    body-fixed components, else inertial).  `A_IB @ v` needs v in B and yields I;  `v @ A_IB` (= A_IB.T @ v) needs v in I and yields B;
+    `v @ J_P` / `v @ J_R` need v in I,  `v @ B_J_R` needs v in B.  A transposed change of basis is exact while the load axis is the rotation
+    axis (every planar benchmark) and makes the applied load depend on the body's absolute orientation otherwise - the moved problem's
+    equilibria are then not the moved equilibria."""
+    rep = ctx.rep
+    JB = {"J_P": "I", "J_R": "I", "B_J_R": "B", "B_J_P": "B"}
+    n = 0
+    for rel in ("cardillo/forces/force.py", "cardillo/forces/moment.py"):
+        mod = ctx.repo.modules.get(rel)
+        if mod is None:
+            continue
+        for cls in [c for c in mod.tree.body if isinstance(c, ast.ClassDef)]:
+            D = "B" if cls.name.startswith("B_") else "I"
+            fn = next((f for f in cls.body if isinstance(f, ast.FunctionDef) and f.name == "h"), None)
+            if fn is None:
+                continue
+            C = f"{rel}:{cls.name}.h"
+            binds = {w.targets[0].id: w.value for w in ast.walk(fn) if isinstance(w, ast.Assign) and len(w.targets) == 1 and isinstance(w.targets[0], ast.Name)}
+            problems = []
+
+            def selfcall(e):
+                return e.func.attr if isinstance(e, ast.Call) and isinstance(e.func, ast.Attribute) and dotted(e.func.value) == "self" else None
+
+            def ty(e, depth=0):
+                """basis of a vector expression: 'I' | 'B' | None (unknown); conflicts are appended to problems"""
+                if depth > 8:
+                    return None
+                if isinstance(e, ast.Name) and e.id in binds:
+                    return ty(binds[e.id], depth + 1)
+                if selfcall(e) in ("force", "moment"):
+                    return D
+                if isinstance(e, ast.UnaryOp):
+                    return ty(e.operand, depth + 1)
+                if isinstance(e, ast.BinOp) and isinstance(e.op, (ast.Mult, ast.Div)):
+                    return ty(e.left, depth + 1) or ty(e.right, depth + 1)
+                if isinstance(e, ast.BinOp) and isinstance(e.op, ast.MatMult):
+                    L, R = e.left, e.right
+                    Lt = isinstance(L, ast.Attribute) and L.attr == "T" and selfcall(L.value) == "A_IB"
+                    if selfcall(L) == "A_IB" or Lt:
+                        v = ty(R, depth + 1)
+                        need, out = ("I", "B") if Lt else ("B", "I")
+                        if v is not None and v != need:
+                            problems.append((e, f"`{norm_src(e)[:60]}` applies {'A_IB.T' if Lt else 'A_IB'} to a vector given in the {v}-basis (it maps {need}-components to {out}-components)"))
+                        return out if v is not None else None
+                    Rt = isinstance(R, ast.Attribute) and R.attr == "T" and selfcall(R.value) == "A_IB"
+                    if selfcall(R) == "A_IB" or Rt:
+                        v = ty(L, depth + 1)
+                        need, out = ("B", "I") if Rt else ("I", "B")
+                        if v is not None and v != need:
+                            problems.append((e, f"`{norm_src(e)[:60]}` multiplies a {v}-basis vector from the left onto {'A_IB.T' if Rt else 'A_IB'} (= {'A_IB' if Rt else 'A_IB.T'} @ v, which maps {need}-components to {out}-components)"))
+                        return out if v is not None else None
+                    if selfcall(R) in JB:
+                        v = ty(L, depth + 1)
+                        if v is not None and v != JB[selfcall(R)]:
+                            problems.append((e, f"a {v}-basis vector is contracted with `{selfcall(R)}`, whose rows are {JB[selfcall(R)]}-components"))
+                        return "gen" if v is not None else None
+                return None
+            rets = [r.value for r in ast.walk(fn) if isinstance(r, ast.Return) and r.value is not None]
+            res = [ty(r) for r in rets]
+            if problems:
+                e, msg = problems[0]
+                rep.bad(rule, C, e, f"{cls.name} takes its datum in the {D}-basis, but {msg}: the generalized force is that of a load whose direction depends on the absolute orientation of the "
+                        "body unless the load axis is the rotation axis (planar cases), so rigidly moving the problem does not move its equilibria with it", f"{rel}:{e.lineno}")
+            elif res and all(r == "gen" for r in res):
+                n += 1
+                rep.ok(rule, C, f"`{norm_src(rets[0])[:70]}`: {D}-basis datum contracted in consistent bases")
+            else:
+                rep.ok(rule, C, "bases of the contraction not derivable (no verdict)", verdict="unknown", trivial=True)
+    if n < 4:
+        rep.ok(rule, "cardillo/forces", f"only {n} load classes typed", verdict="unknown", trivial=True)
 
 
 def options_forwarded(ctx, rule="C23.R9", only=None):
@@ -550,4 +626,13 @@ NEUTRAL = [
     dict(id="c23-n1", canary=True, what="Riks stores copies and updates the predictor in place", file=ST,
          old="            q.append(q_)\n            la_c.append(la_c_)\n            la_g.append(la_g_)\n            la_N.append(la_N_)\n",
          new="            q.append(q_.copy())\n            la_c.append(la_c_.copy())\n            la_g.append(la_g_.copy())\n            la_N.append(la_N_.copy())\n"),
+]
+
+MUTANTS += [
+    dict(id="c23-r10-seed", canary=True, what="[seeded by sub-agent] Moment.h 'harmonised with B_Force': A_IB @ moment instead of moment @ A_IB (transposed change of basis of an I-basis datum)", file='cardillo/forces/moment.py',
+         old="        return (self.moment(t) @ self.A_IB(t, q)) @ self.B_J_R(t, q)\n", new="        return (self.A_IB(t, q) @ self.moment(t)) @ self.B_J_R(t, q)\n", expect="C23.R10"),
+]
+NEUTRAL += [
+    dict(id="c23-n-r10", canary=True, what="Moment.h written with the explicit transpose A_IB.T @ moment", file='cardillo/forces/moment.py',
+         old="        return (self.moment(t) @ self.A_IB(t, q)) @ self.B_J_R(t, q)\n", new="        return (self.A_IB(t, q).T @ self.moment(t)) @ self.B_J_R(t, q)\n"),
 ]
